@@ -33,6 +33,8 @@ type gatedIndex struct {
 	applied map[string]bool
 	gate    chan struct{}
 	entered int
+	// afterRead: the holder parks after it has read the log (its walk is under way) instead of before
+	afterRead bool
 }
 
 func (g *gatedIndex) Get(string) interface{} { return nil }
@@ -41,11 +43,15 @@ func (g *gatedIndex) UpdateIndex(log ipfslog.Log, _ []ipfslog.Entry) error {
 	g.mu.Lock()
 	g.entered++
 	gate := g.gate
+	after := g.afterRead
 	g.mu.Unlock()
-	if gate != nil {
+	if gate != nil && !after {
 		<-gate
 	}
 	vals := log.Values().Slice()
+	if gate != nil && after {
+		<-gate
+	}
 	g.mu.Lock()
 	for _, e := range vals {
 		g.applied[e.GetHash().String()] = true
@@ -92,6 +98,7 @@ type CaseC16d struct {
 	Writers   int  `json:"writers"`
 	WithMerge bool `json:"with_merge"`
 	Remote    int  `json:"remote"`
+	AfterRead bool `json:"after_read,omitempty"` // the held writer is parked after reading the log, not before
 }
 
 func genC16d(rt *rapid.T) CaseC16d {
@@ -100,6 +107,7 @@ func genC16d(rt *rapid.T) CaseC16d {
 		Writers:   rapid.IntRange(1, 5).Draw(rt, "writers"),
 		WithMerge: rapid.Bool().Draw(rt, "merge"),
 		Remote:    rapid.IntRange(1, 4).Draw(rt, "remote"),
+		AfterRead: rapid.Bool().Draw(rt, "afterRead"),
 	}
 }
 
@@ -113,7 +121,7 @@ func execC16d(c CaseC16d) *Outcome {
 		return fail("harness: %v", err)
 	}
 	defer w.Close()
-	idx := []*gatedIndex{{applied: map[string]bool{}}, {applied: map[string]bool{}}}
+	idx := []*gatedIndex{{applied: map[string]bool{}, afterRead: c.AfterRead}, {applied: map[string]bool{}}}
 	var ss []iface.Store
 	no := false
 	addr := ""
@@ -310,3 +318,7 @@ func execC16d(c CaseC16d) *Outcome {
 }
 
 func TestC16GatedIndex(t *testing.T) { runCheck(t, "C16", genC16d, execC16d) }
+
+// TestC17GatedIndex: the same scenario decides C17's "every acknowledged write is visible": a writer is held
+// inside the view update (before or after it has read the log) while the others write.
+func TestC17GatedIndex(t *testing.T) { runCheck(t, "C17", genC16d, execC16d) }
